@@ -24,8 +24,12 @@ func addTarget(thorough bool, chunk int, name string, rawQ, rawT int, run func(e
 		n = rawT
 	}
 	t.fams = rawFam(t, n)
+	var skip map[string]bool
+	if chunk <= 256 && !thorough { // slow targets (a store / file per input): reduced operator set in the quick tier
+		skip = map[string]bool{"set64": true, "dup": true}
+	}
 	for i := range t.encs {
-		t.fams = append(t.fams, altFams(t, &t.encs[i], chunk)...)
+		t.fams = append(t.fams, altFams(t, &t.encs[i], chunk, skip)...)
 	}
 	targets = append(targets, t)
 	return t
